@@ -896,8 +896,29 @@ pub(crate) fn m_dom_children() {
     }
 }
 
+/// Strikeout affixes of a custom decorator appear verbatim (not struck through) on both sides.
+pub(crate) fn m_strike_affix() {
+    let _which: u8 = kani::any();
+    let dec = KDec::plain_like();
+    let out = crate::config::with_decorator(dec).string_from_read(&b"<p>x <s>ab</s> y</p>"[..], 40).expect("renders");
+    assert!(out.contains("~~a\u{336}b\u{336}~~"), "strikeout affixes altered: {:?}", out);
+}
+
+/// Ids on nested blocks without text in between all yield their fragment marker.
+pub(crate) fn m_frag_nested() {
+    let _which: u8 = kani::any();
+    let html: &[u8] = b"<div id=\"a\"><div id=\"b\"><p id=\"c\">text</p></div></div><blockquote id=\"q\"><div id=\"d\"><p>deep</p></div></blockquote>";
+    let toks = rich_tokens(html, 40, false);
+    let names: Vec<&str> = toks.iter().map(|(t, _)| t.as_str()).collect();
+    for f in ["#a", "#b", "#c", "#q", "#d"] {
+        assert!(names.iter().filter(|t| **t == f).count() == 1, "marker {} missing or duplicated: {:?}", f, names);
+    }
+    let pos = |w: &str| names.iter().position(|t| *t == w).unwrap();
+    assert!(pos("#a") < pos("text") && pos("#c") < pos("text") && pos("#q") < pos("deep"));
+}
+
 crate::verif_common::registry! {
-    m_dom_children, m_cell_unwind, m_routes_width, m_insert_child, m_ol_numbering, m_prefix_width, m_into_cells, m_table_col_width, m_table_alloc,
+    m_strike_affix, m_frag_nested, m_dom_children, m_cell_unwind, m_routes_width, m_insert_child, m_ol_numbering, m_prefix_width, m_into_cells, m_table_col_width, m_table_alloc,
     r1_cascade_pairs, r1_cascade_triples, r2_specificity_order, r2_specificity_add,
     r3_ol_prefix_total, r4_ol_prefix_is_max,
     r9_tree_map_reduce_order, r12_config_plumbing, r12_width_zero,
